@@ -605,7 +605,7 @@ func c03r6(c *an.Ctx) {
 			cc := in.(ssa.CallInstruction).Common()
 			arg := an.Arg(cc, 0)
 			// the parameter itself, or its one copy in memory when a closure (a debug message) captures it
-			c.Check(arg == ssa.Value(errParam) || an.Resolve(an.Unwrap(arg)) == ssa.Value(errParam), "(*Stream).terminate | "+names[i]+" receives terminate's error", c.At(in), "", "a state signal is set with a different error than the termination cause")
+			c.Check(arg == ssa.Value(errParam) || an.Resolve(an.Unwrap(arg)) == ssa.Value(errParam) || carriesError(arg, errParam, 0), "(*Stream).terminate | "+names[i]+" receives terminate's error", c.At(in), "", "a state signal is set with a different error than the termination cause")
 		}
 	}
 
@@ -618,10 +618,13 @@ func c03r6(c *an.Ctx) {
 		why  string
 	}
 	var sites []site
-	for _, cs := range an.CallsTo(hp, false, sa.terminate) {
-		for _, k := range []string{"KindError", "KindCancel"} {
-			if guardedByKind(cs.Instr.Block(), kinds[k], true) {
-				sites = append(sites, site{hp, cs.Instr, "HandlePacket " + k})
+	parts := handlePacketParts(c)
+	for _, pf := range parts.fns {
+		for _, cs := range an.CallsTo(pf, false, sa.terminate) {
+			for _, k := range []string{"KindError", "KindCancel"} {
+				if parts.inKind(cs.Instr, kinds[k]) {
+					sites = append(sites, site{pf, cs.Instr, "HandlePacket " + k})
+				}
 			}
 		}
 	}
@@ -657,8 +660,8 @@ func c03r6(c *an.Ctx) {
 	nHalf := 0
 	for _, k := range []string{"KindClose", "KindCloseSend"} {
 		var setRecv, closeBuf, final ssa.Instruction
-		an.Instrs(hp, func(in ssa.Instruction) {
-			if !guardedByKind(in.Block(), kinds[k], true) {
+		visit := func(in ssa.Instruction) {
+			if !parts.inKind(in, kinds[k]) {
 				return
 			}
 			ci, ok := in.(ssa.CallInstruction)
@@ -674,7 +677,10 @@ func c03r6(c *an.Ctx) {
 			case an.IsCallTo(cc, sa.terminate) && k == "KindClose", an.IsCallTo(cc, sa.termBoth) && k == "KindCloseSend":
 				final = in
 			}
-		})
+		}
+		for _, pf := range parts.fns {
+			an.Instrs(pf, visit)
+		}
 		ok := setRecv != nil && closeBuf != nil && final != nil && an.InstrDominates(setRecv, closeBuf) && an.InstrDominates(closeBuf, final)
 		pos := c.P.Pos(hp.Pos())
 		if final != nil {
@@ -769,6 +775,14 @@ func c03r7(c *an.Ctx) {
 			handled[k] = true
 		}
 	})
+	parts := handlePacketParts(c)
+	compared := map[int64]bool{}
+	for k := range handled {
+		compared[k] = true
+	}
+	for k := range parts.tableKinds() {
+		handled[k] = true
+	}
 	var names []string
 	for n := range kinds {
 		names = append(names, n)
@@ -785,18 +799,56 @@ func c03r7(c *an.Ctx) {
 	}
 	c.Floor("Kind constants with a case in HandlePacket", 1, nHandled)
 	// default region: blocks where every handled kind compared false
+	tk := parts.tableKinds()
+	// tableMiss: the block is behind "the dispatch table has no handler for this kind"
+	tableMiss := func(b *ssa.BasicBlock) bool {
+		for _, g := range an.GuardsOf(b) {
+			if x, trueNonNil, isNil := nilTestOf(g.Cond); isNil && g.True != trueNonNil {
+				if _, ok := c.P.DynCallees(x); ok {
+					return true
+				}
+			}
+		}
+		return false
+	}
 	inDefault := func(b *ssa.BasicBlock) bool {
 		for k := range handled {
-			if !guardedByKind(b, k, false) {
-				return false
+			if guardedByKind(b, k, false) {
+				continue
 			}
+			if tk[k] && (tableMiss(b) || !compared[k]) {
+				// a kind that is only handled through the table: code of HandlePacket itself that is not in a
+				// compared arm runs for the kinds the table has no entry for (or before the table is consulted)
+				continue
+			}
+			return false
 		}
 		return true
 	}
 	n := 0
-	an.Instrs(hp, func(in ssa.Instruction) {
-		if !inDefault(in.Block()) {
-			return
+	learnCtl := func(st string, cond ssa.Value, val bool) (string, bool) {
+		cnd, neg := an.StripNot(cond)
+		if isLoadOfField(cnd, control) && val == neg {
+			return addTag(st, "nc"), true
+		}
+		return st, true
+	}
+	ctlRes := (&an.Flow{Fn: hp, Init: []string{""},
+		Branch: func(st string, br *ssa.If, idx int) (string, bool) { return learnCtl(st, br.Cond, idx == 0) },
+		OnFact: learnCtl}).Run()
+	visitDefault := func(in ssa.Instruction) {
+		// the default region of HandlePacket itself, or the handler chosen when the table has no entry
+		guardAt := in.Block()
+		if in.Parent() == hp {
+			if !inDefault(in.Block()) {
+				return
+			}
+		} else {
+			fb, isFallback := parts.fallback[in.Parent()]
+			if !isFallback || fb == nil {
+				return
+			}
+			guardAt = fb
 		}
 		isEffect := false
 		what := ""
@@ -808,6 +860,18 @@ func c03r7(c *an.Ctx) {
 		case *ssa.Return:
 			for _, v := range returnedValues(x, 0) {
 				if v != nil && !an.IsNilConst(v) {
+					// handing back what the dispatched handler returned belongs to that handler's arm
+					if call, isCall := an.Unwrap(v).(*ssa.Call); isCall {
+						dispatched := false
+						for _, dc := range parts.calls {
+							if dc == call {
+								dispatched = true
+							}
+						}
+						if dispatched {
+							continue
+						}
+					}
 					isEffect, what = true, "error return"
 				}
 			}
@@ -816,9 +880,21 @@ func c03r7(c *an.Ctx) {
 			return
 		}
 		n++
-		_, ok := guardedByFieldLoad(in.Block(), control, false)
+		_, ok := guardedByFieldLoad(guardAt, control, false)
+		if !ok && in.Parent() == hp {
+			// path-sensitively: every way to the effect has seen the control bit clear
+			ok = len(ctlRes.Before(in)) > 0
+			for _, st := range ctlRes.Before(in) {
+				if !hasTag(st, "nc") {
+					ok = false
+				}
+			}
+		}
 		c.Check(ok, "HandlePacket default | "+what+" only without the control bit", c.At(in), "", "an unknown packet kind with the control bit set disturbs the stream (must be ignored for forward compatibility)")
-	})
+	}
+	for _, pf := range parts.fns {
+		an.Instrs(pf, visitDefault)
+	}
 	c.Floor("effects in HandlePacket's default branch", 1, n)
 }
 
@@ -967,7 +1043,7 @@ func c03r10(c *an.Ctx) {
 		}
 		res := flow.Run()
 		if res.Blowup {
-			c.Undecided("%s", t.name + ": state space too large")
+			c.Undecided("%s", t.name+": state space too large")
 			continue
 		}
 		for _, ret := range an.Returns(fn) {
